@@ -385,6 +385,8 @@ def r4_run_layer(ctx, rep, R='C01.R4'):
         for v in assigns.get(needed.id, []):
             if isinstance(v, ast.AST):
                 whole = whole or _covers_all(v, gres)
+    elif needed is not None:
+        whole = _covers_all(needed, gres)          # passed inline: set(gathered), {l: 1 for l in gathered}
     rep.check(flow and whole, R, 'needed = all layers gathered from the layer that is then set up',
               'tear_down_unneeded is not given exactly the gathered base closure of the layer '
               '(gathered=%s needed=%s)' % (gres, norm(needed) if needed is not None else None),
